@@ -44,7 +44,11 @@ def check(ctx) -> None:
     cfg = CFG(f.node)
     # ---------------------------------------------------------------- A1
     wb = [s for s in st.stores if s.func is f and s.keytexts & mcs_key and isinstance(s.elem_expr, ast.Subscript) and isinstance(s.value, ast.Name)]
-    ctx.require(wb, "find no longer writes the MCS data back by index")
+    positional = [s for s in st.stores if s.func is f and s.keytexts & mcs_key and not isinstance(s.elem_expr, ast.Subscript) and not (isinstance(s.value, ast.Constant) and s.value.value is None)]
+    for s in positional:
+        ctx.instance("C10-A1", "find: %s attaches the result to a row by position" % unparse(s.node)[:60], s.where(), ok=False)
+        ctx.finding("C10-A1", "mcs_search.MCSSearch.find:positional-write-back", s.where(), "the MCS result is attached to the row that sits at the same position in the list of searched rows; the selection step drops reactions without a usable condition, so every later result lands on another reaction")
+    ctx.require(wb or positional, "find no longer writes the MCS data back")
     for s in wb:
         idx = s.elem_expr.slice
         ok, why = False, ""
